@@ -16,7 +16,7 @@ SPEC = os.path.join(VERIF, "spec")
 # tools/run_mutants.py to run the checks against patched scratch worktrees (CIDER_REPO) without
 # touching /repo or the evidence of the real tree
 OUT = os.environ.get("CIDER_VERIF_OUT", VERIF)
-EVID = os.path.join(OUT, "evidence")
+EVID = os.environ.get("CIDER_VERIF_EVIDENCE_DIR") or os.path.join(OUT, "evidence")   # (check_sys writes to evidence_sys/)
 SCRATCH = os.path.join(OUT, "build", "scratch")
 REPLAY = os.path.join(OUT, "build", "replay")
 REPO = os.environ.get("CIDER_REPO", "/repo")
